@@ -45,7 +45,7 @@ def judge(ctx, variant, mism, panics, devrel):
 def run(ctx):
     scope = "hs-quick" if ctx.quick() else "hs-thorough"
     ideal, caught, devrel = S.model(ctx, scope, S.HS_INVS, DEVS)
-    paths, total, nedges, complete = S.all_programs(ideal.edges, cap=None if ctx.quick() else 60000, rng=ctx.rng)
+    paths, total, nedges, complete = S.all_programs(ideal.edges, cap=None if ctx.quick() else 100000, rng=ctx.rng)
     attacks = S.attack_paths(devrel, cap=None if ctx.quick() else 60000, rng=ctx.rng)
     programs = S.hs_programs(paths, attacks)
     summ, mism, panics = S.hs_replay(ctx, "pipe", programs, "c21pipe")
@@ -59,7 +59,9 @@ def run(ctx):
         sample = [dict(programs[i], id=n) for n, i in enumerate(idx)]
         st, mt, pt = S.hs_replay(ctx, "tcp", sample, "c21tcp")
         drift += judge(ctx, "tcp", mt, pt, devrel)
-        wsideal, wscaught, wsrel = S.model(ctx, "ws", S.HS_INVS, DEVS)
+        # (behind the WebSocket listener the HTTP basic check already refuses everybody when no user is usable, so the
+        # deviations are not observable there: no sensitivity run for this scope)
+        wsideal, wscaught, wsrel = S.model(ctx, "ws", S.HS_INVS, {})
         wpaths, wtotal, wedges, _ = S.all_programs(wsideal.edges)
         wprogs = S.hs_programs(wpaths, S.attack_paths(wsrel))
         sw, mw, pw = S.hs_replay(ctx, "ws", wprogs, "c21ws")
